@@ -101,6 +101,7 @@ func Deref(a *Expr) *Expr   { return &Expr{Op: "deref", T: a.T.Elem, Args: []*Ex
 func Addr(a *Expr) *Expr    { return &Expr{Op: "addr", T: PtrT(a.T), Args: []*Expr{a}} }
 func AddrLit(a *Expr) *Expr { return &Expr{Op: "addrlit", T: PtrT(a.T), Args: []*Expr{a}} }
 func New(t *Type) *Expr     { return &Expr{Op: "new", T: PtrT(t), Ty: t} }
+func Nil(t *Type) *Expr     { return &Expr{Op: "nil", T: t, Ty: t} }
 func StructLit(t *Type, fs ...*Expr) *Expr {
 	return &Expr{Op: "slit", T: t, Ty: t, Args: fs}
 }
